@@ -367,6 +367,13 @@ def mutations(tree):
                 yield f'delete {k}', path + (k,), without_key(tree, path + (k,))
         if key == 'name' and isinstance(node, str):
             yield 'unknown component', path, with_value(tree, path, 'no_such_component')
+        if isinstance(node, dict) and isinstance(node.get('name'), str) and path and path[0] in (
+                'reset_function', 'transition_functions', 'reward_functions', 'observation_function', 'terminating_function'):
+            # entries named like the arguments every component of that kind receives from the environment at call time
+            # (state, action, next_state, rng, ...): not parameters of the component, hence ignored like any other junk
+            for k in ('state', 'action', 'next_state', 'rng', 'grid', 'position', 'junk_parameter'):
+                if k not in node:
+                    yield f'unaccepted {k} added', path + (k,), with_value(tree, path, dict(node, **{k: 7}))
         if path == ('reset_function',) and isinstance(node, dict):
             # well-formed values for reserved keys the component does not take: validated, then ignored - the environment
             # is the one built without them
@@ -433,7 +440,10 @@ def judge_mutation(mutated, seeds, debug=True):
     if expect == 'build' and got == 'reject':
         return expect, 'a configuration that only lost an optional/unaccepted parameter was rejected'
     if expect == 'build':
-        m = lockstep(built, hand, seeds, 2, limit=40)
+        try:
+            m = lockstep(built, hand, seeds, 2, limit=40)
+        except Exception as e:  # noqa: BLE001 -- the hand-assembled twin runs the same real components: a crash is the built one's
+            m = f'running it raised {type(e).__name__}: {e}'
         if m:
             return expect, f'builds an environment different from the hand-assembled one: {m}'
     return expect, None
@@ -596,8 +606,51 @@ def judge_registry(kind, fname):
     return n, None
 
 
+def judge_file_reload():
+    """a configuration FILE is read when it is loaded: the same path loaded again after its contents changed builds what the
+    file says now (or is rejected if it is now malformed); unchanged contents build the same environment again"""
+    import shutil
+    import tempfile
+    from gym_gridverse.envs.yaml.factory import factory_env_from_yaml
+
+    files = dict((os.path.basename(f), f) for f in configs.config_files())
+    order = ['gv_keydoor.5x5.yaml', 'gv_empty.4x4.yaml', 'gv_keydoor.5x5.yaml', 'gv_memory.5x5.yaml', 'gv_empty.8x8.yaml']
+    order = [o for o in order if o in files] or sorted(files)[:4]
+    tmp = tempfile.mkdtemp(prefix='gv-c17-', dir=os.environ.get('TMPDIR') or '/var/tmp')
+    n = 0
+    try:
+        path = os.path.join(tmp, 'env.yaml')
+        for name in order:
+            shutil.copyfile(files[name], path)
+            n += 1
+            try:
+                built = factory_env_from_yaml(path)
+            except Exception as e:  # noqa: BLE001
+                return n, f'loading a copy of {name} from {path} raised {type(e).__name__}: {e}'
+            want = configs.build(files[name])
+            if space_sig(built) != space_sig(want):
+                return n, (f'the file at one path was rewritten with the contents of {name} and loaded again: the environment built has '
+                           f'spaces {space_sig(built)[:1]}, the file describes {space_sig(want)[:1]} (contents of an earlier load reused)')
+        with open(path, 'w') as f:
+            f.write(open(files[order[0]]).read().replace('name: keydoor', 'name: no_such_reset_function'))
+        n += 1
+        try:
+            factory_env_from_yaml(path)
+        except REJECT:
+            pass
+        except Exception as e:  # noqa: BLE001
+            return n, f'a file rewritten with an unknown reset function raised {type(e).__name__}, expected a rejection'
+        else:
+            return n, 'a file rewritten with an unknown reset function (after a successful earlier load of the same path) was accepted'
+    finally:
+        shutil.rmtree(tmp, ignore_errors=True)
+    return n, None
+
+
 def replay(case):
     k = case['kind']
+    if k == 'file_reload':
+        return judge_file_reload()[1]
     if k == 'config':
         return judge_config(dict(configs.all_configs(include_examples=True))[case['config']], case['depth'], case['seeds'])
     if k == 'files':
@@ -640,6 +693,10 @@ def run(rep, tier, seed):
                 raise SystemExit(m)
             fails.append({'kind': 'config', 'config': name, 'depth': depth, 'seeds': sds, 'message': f'{name}: {m}', 'sig': {'part': 'lockstep', 'config': name}})
     rep.part('lockstep', configs=len(cfgs), sequences=cn)
+    fk, fm = judge_file_reload()
+    if fm:
+        fails.append({'kind': 'file_reload', 'message': fm, 'sig': {'part': 'file_reload'}})
+    rep.part('file_reload', loads=fk)
     mjobs = []
     for name, path in cfgs:
         if name == 'coin_env':
